@@ -85,18 +85,18 @@ inline Pt astroid_point(const geodtab::Ell& E, double lat1, double x, double y) 
   return p;
 }
 
-// level 0 = quick, 1 = thorough (C03), 2 = thorough (C02: two more anchor meridians, 49x49 astroid grid, 32 bearings); 0 c 1 c 2
+// level 0 = quick, 1 = thorough (C03), 2 = thorough (C02: nine anchor meridians, 73x73 astroid grid, 32 bearings); 0 c 1 c 2
 inline std::vector<Pair> inverse_pairs(const geodtab::Ell& E, int level) {
   const bool T = level >= 1;
   std::vector<Pair> v;
   // (a) + (e) generic grid from the anchor meridian lon1 = 0 (contains the meridional pairs lon12 in {0, 180, -180});
   //     thorough: denser alphabets and two further anchor meridians whose sums with the offsets are inexact in double
-  for (double lo1 : (level >= 2 ? std::vector<double>{0, 100.1, -179.75, 359.9, -540.5} : (T ? std::vector<double>{0, 100.1, -179.75} : std::vector<double>{0})))
+  for (double lo1 : (level >= 2 ? std::vector<double>{0, 100.1, -179.75, 359.9, -540.5, 45.3, -90.7, 179.9, -0.2} : (T ? std::vector<double>{0, 100.1, -179.75} : std::vector<double>{0})))
     for (double la1 : grid_lats(T)) for (double la2 : grid_lats(T)) for (double lo2 : grid_lons(T)) v.push_back({la1, lo1, la2, lo1 + lo2, 'g'});
   // (b) astroid grid: quick 5x5, thorough 25x25 on [-2.5,0.5]x[-1.5,1.5] (contains the 5x5 grid), strip around x = -1
   const double eps = std::ldexp(1.0, -52), tol1 = 200 * eps, xthresh = 1000 * std::sqrt(eps);
   std::vector<double> xs, ys;
-  int n = level >= 2 ? 49 : (T ? 25 : 5);
+  int n = level >= 2 ? 73 : (T ? 25 : 5);
   for (int i = 0; i < n; ++i) { xs.push_back(-2.5 + 3.0 * i / (n - 1)); ys.push_back(-1.5 + 3.0 * i / (n - 1)); }
   std::vector<double> bases = {-0.5, -30.0, -60.0, -89.0};
   if (T) for (double x : {-1e-9, -1 / 32.0, -10.0, -45.0, -75.0, -89.99}) bases.push_back(x);
@@ -156,11 +156,11 @@ inline const char* pair_regime(const geodtab::Ell& E, const Pair& P, double a12)
   long double l12 = fabsl(remainderl((long double)P.lon2 - (long double)P.lon1, 360.0L));
   if (E.f > 0 && std::fabs(P.lat1) <= 1e-3 && std::fabs(P.lat2) <= 1e-3 && l12 < 28.6L && fabsl(l12 / (1 - (long double)E.f) - 180) <= 180e-6L)
     return "equatorial-conjugate-shortline";
-  // nearly-equatorial-steep: both points within 0.001 deg of the equator but not both on it, longitude difference beyond (1-max(f,0))180 - 2:
+  // nearly-equatorial-steep: both points within 0.001 deg of the equator but not both on it, longitude difference beyond (1-f)180 - 2 (oblate) or 170 deg (prolate):
   //     lambda12(alp1) changes by O(1) over |cos alp1| < 1e-15, the bisection stops on its ABSOLUTE interval test tolb_
   {
     double m1 = std::fabs(P.lat1), m2 = std::fabs(P.lat2);
-    if (m1 <= 1e-3 && m2 <= 1e-3 && (m1 != 0 || m2 != 0) && l12 >= (1 - (E.f > 0 ? (long double)E.f : 0.0L)) * 180 - 2) return "nearly-equatorial-steep";
+    if (m1 <= 1e-3 && m2 <= 1e-3 && (m1 != 0 || m2 != 0) && l12 >= (E.f > 0 ? (1 - (long double)E.f) * 180 - 2 : 170.0L)) return "nearly-equatorial-steep";
   }
   if (a12 >= 179.9 || l12 >= 179.9L) return "near-antipodal";
   return "general";
